@@ -259,6 +259,9 @@ def run(ctx):
         ctx.count(f"sym:{sym}")
         ctx.count(f"policy:{kw['policy']}")
         run_one(ctx, kw, rng.randint(dmin, dmax))
+    # the same operations on operands held lazily / with meta- or hard-fused legs (no model: exact metamorphic relations)
+    from .. import views
+    views.run(ctx, 300 if ctx.quick else 5000, 20 if ctx.quick else 250, which=("R1", "R1", "R1", "R3"))
 
 
 def search(ctx, broken, budget):
